@@ -5,7 +5,9 @@ package main
 // n real Cluster values (3..5) run their real failover loops (Cluster.run, electLeader, sendHealthChecks, Vote,
 // Health) inside one testing/synctest bubble. Every ClusterNode.endpoint is a real rpc.Client over a harness
 // ClientCodec; each request and each reply is an item the generated schedule delivers, drops or reorders. The
-// schedule is plain data (c17SimCase) and is its own replay file.
+// schedule is plain data (c17SimCase) and is its own replay file. On the wire every request and reply is its gob
+// encoding, decoded into a fresh argument value at the callee and INTO the caller's own reply value at the caller, as
+// net/rpc's default codec does (gob leaves out zero-valued fields and leaves absent fields of the destination alone).
 //
 // Determinism (the real code iterates a Go map of peers and uses select over several inputs):
 //   * items are ordered by (virtual creation time, caller, callee, reply?, per-link counter), never by arrival;
